@@ -27,6 +27,13 @@
 (* The combined result is compared whenever one logged weight is positive. *)
 (* wx = 1 flags a weight that is none of the weights the harness feeds     *)
 (* (k/4): the accumulator was not given the sample's weight ("weight").    *)
+(* Unit of the weights.  A run may hand every weight over times a common   *)
+(* factor 2^e (ParallelStats: WScale).  The harness writes the log in      *)
+(* units of that factor (w, wc and m2 divided by 2^e -- exact for a power  *)
+(* of two; mean and variance as they are), so the checks below are the     *)
+(* statement "wcount and M2 carry the unit of the weights, mean and         *)
+(* variance do not" (WeightScaleLemma, verified by TLC in the design-level *)
+(* configs for the factors 1/1024 and 1024).                               *)
 (* Runs are independent: a rejected event prints BAD and skips its tid.    *)
 (***************************************************************************)
 EXTENDS ParallelStatsOps, Json, IOUtils, TLCExt
